@@ -244,6 +244,14 @@ def run_tree(case, ctx):
         X[n // 2:] = X[: n - n // 2]
     elif xkind == "collinear" and d > 1:
         X[:, -1] = 2 * X[:, 0]
+    # training features as counts (int64) or float32 sensors: the same numbers, another dtype
+    tdtype = ["float64", "float64", "float64", "int64", "float32"][(case["sub"] // 2) % 5]
+    if xkind == "offset2000" and tdtype == "float32":
+        tdtype = "float64"
+    if tdtype == "int64":
+        X = numpy.round(X * 4)
+    elif tdtype == "float32":
+        X = X.astype(numpy.float32).astype(numpy.float64)
     y = numpy.where(X[:, 0] > numpy.median(X[:, 0]), 1.0, -1.0) * (1 + X[:, -1]) + rng.randn(n) * 0.1
     crit = ["mselin", "simple"][case["sub"] % 2]
     weighted = crit == "simple" and rng.rand() < 0.5
@@ -252,9 +260,19 @@ def run_tree(case, ctx):
                   random_state=0)
     cfg = dict(params, n=n, d=d, X=xkind, weighted=bool(weighted), sub=case["sub"])
     K = "C09/tree/%s/" % crit
-    m = PiecewiseTreeRegressor(**params)
+    from vrt import layouts
+    lay = layouts.pick(case["sub"], 3)
+    via = (case["sub"] // 3) % 4 == 0
+    cfg["layout"], cfg["configured_with"] = lay, "set_params" if via else "constructor"
+    ctx.cls("layout=" + lay)
+    Xfit, yfit = layouts.relayout(X if tdtype == "float64" else X.astype(tdtype), lay), layouts.relayout(y, lay)
+    cfg["train_dtype"] = tdtype
+    ctx.cls("train-dtype=" + tdtype)
+    m = layouts.build(PiecewiseTreeRegressor, params, via,
+                      dict(criterion="simple" if crit == "mselin" else "mselin", max_depth=params["max_depth"] + 7,
+                           min_samples_leaf=params["min_samples_leaf"] + 3, random_state=5))
     try:
-        r = m.fit(X, y) if w is None else m.fit(X, y, sample_weight=w)
+        r = m.fit(Xfit, yfit) if w is None else m.fit(Xfit, yfit, sample_weight=w)
         pred = m.predict(X)
     except Exception as e:
         ctx.hit("tree." + crit)
